@@ -503,6 +503,16 @@ package workflow
 //@   on aftercall <dynamic> : loaded = true ; assume result2 == nil ==> result0 != nil && result0.Defaults != nil && result0.Vars != nil && result0.UserVars != nil && result0.Defaults.parent == iface(ownD) && result0.Vars.parent == iface(ownV) && result0.UserVars.parent == iface(ownU) && r.parent == ownP
 //@   on call (*aggregatorRole).ProcessTemplates : assert loaded && r.Defaults.parent == iface(ownD) && r.Vars.parent == iface(ownV) && r.UserVars.parent == iface(ownU) && r.parent == ownP
 
+// C14 (a role sees its ancestors' values whatever it defines itself - also when it defines nothing): a role decoded from
+// YAML always has its three maps, so that they can be linked to the parent's; an empty `defaults:` / `vars:` block (a YAML
+// null) must not leave a nil map behind, which cuts the role and its whole subtree off from every ancestor's values of
+// that kind (and panics when such a role is generated by an iterator)
+//@ func (r *roleBase) UnmarshalYAML(unmarshal func(interface{}) error) (err error)
+//@   property C14
+//@   requires r != nil
+// (stated on the decoded value `role`, which is then copied into *r as a whole)
+//@   on return : assert err == nil ==> role.Defaults != nil && role.Vars != nil && role.UserVars != nil
+
 // C14 (the nearest definition wins - an iterator's loop variable is nearer than anything an ancestor defines): after its
 // own templates are processed a task / call role publishes EVERY one of its locals (the iterator variables it was
 // generated with) in its own vars, whatever the maps further up say about the same key.
